@@ -642,8 +642,8 @@ func catalogue() []*entry {
 				k := func(lq, lp, b2 int) *rlwe.EvaluationKey {
 					return kg.GenEvaluationKeyNew(w.skA, w.skA2, evkParams(lq, lp, b2, false))
 				}
-				return &bootstrapping.EvaluationKeys{EvkN1ToN2: k(0, 0, 0), EvkN2ToN1: k(1, 0, 0), EvkRealToCmplx: k(1, 1, 0), EvkCmplxToReal: k(2, 1, 0),
-					EvkDenseToSparse: k(0, 0, 15), EvkSparseToDense: k(2, 0, 0)}
+				return &bootstrapping.EvaluationKeys{EvkN1ToN2: k(0, 0, 0), EvkN2ToN1: k(1, 0, 0), EvkRealToCmplx: k(0, 0, 20), EvkCmplxToReal: k(1, 1, 0),
+					EvkDenseToSparse: k(1, 0, 20), EvkSparseToDense: k(2, 0, 0)}
 			}),
 			V("only-EvkN1ToN2", func(w *world, g *gen) any {
 				return &bootstrapping.EvaluationKeys{EvkN1ToN2: rlwe.NewKeyGenerator(w.pA).GenEvaluationKeyNew(w.skA, w.skA2, evkParams(0, 0, 0, false))}
